@@ -39,6 +39,8 @@ func main() {
 		os.Exit(cmdSelftest(os.Args[2:]))
 	case "digest":
 		os.Exit(cmdDigest(os.Args[2:]))
+	case "runtape":
+		os.Exit(cmdRunTape(os.Args[2:]))
 	}
 	fmt.Fprintln(os.Stderr, "unknown subcommand", os.Args[1])
 	os.Exit(2)
@@ -114,6 +116,7 @@ func cmdWorker(args []string) int {
 	out := fs.String("out", "", "")
 	replayDir := fs.String("replaydir", "", "")
 	fs.Parse(args)
+	ensureRaceLog()
 	p := core.Lookup(*propID)
 	if p == nil {
 		fmt.Fprintln(os.Stderr, "HARNESS: unknown property", *propID)
@@ -154,25 +157,36 @@ func cmdWorker(args []string) int {
 		}
 		seenViol[key] = true
 		orig := r.Violation
-		test := func(c []uint64) (bool, []uint64) {
+		isRace := orig.Oracle == "data-race"
+		// runTape executes a tape and returns its result and the tape it consumed. Race reports are
+		// issued once per process, so race violations are re-executed in fresh processes.
+		runTape := func(c []uint64) (*core.Result, []uint64) {
+			if isRace {
+				return subprocRun(p.ID, e.Name, c)
+			}
 			src := choice.Replay(c)
 			kickWatchdog("shrinking " + e.Name)
-			rr := e.Run(src)
-			if rr.Violation != nil && rr.Violation.Oracle == orig.Oracle && rr.Violation.Signature == orig.Signature {
-				return true, src.Tape()
+			rr := runEntry(p, e, src)
+			return rr, src.Tape()
+		}
+		test := func(c []uint64) (bool, []uint64) {
+			rr, used := runTape(c)
+			if rr != nil && rr.Violation != nil && rr.Violation.Oracle == orig.Oracle && rr.Violation.Signature == orig.Signature {
+				return true, used
 			}
 			return false, nil
 		}
-		best, execs := choice.Shrink(tape, 3000, 40*time.Second, test)
-		src := choice.Replay(best)
-		final := e.Run(src)
-		if final.Violation == nil {
-			// cannot happen if runs are deterministic
-			so.Harness = fmt.Sprintf("shrunk tape for %s does not reproduce", key)
+		maxExec, maxTime := 3000, 40*time.Second
+		if isRace {
+			maxExec, maxTime = 120, 60*time.Second
+		}
+		best, execs := choice.Shrink(tape, maxExec, maxTime, test)
+		final, _ := runTape(best)
+		if final == nil || final.Violation == nil {
 			best = tape
-			final = e.Run(choice.Replay(best))
-			if final.Violation == nil {
-				so.Harness = fmt.Sprintf("NONDETERMINISM: original tape for %s does not reproduce", key)
+			final, _ = runTape(best)
+			if final == nil || final.Violation == nil {
+				so.Harness = fmt.Sprintf("NONDETERMINISM: tape for %s does not reproduce its violation", key)
 				return
 			}
 		}
@@ -201,7 +215,7 @@ func cmdWorker(args []string) int {
 			n++
 			kickWatchdog("sweep " + sw.Name)
 			src := choice.Replay(tape)
-			r := e.Run(src)
+			r := runEntry(p, e, src)
 			absorb(sw.Entry, r)
 			if r.Violation != nil {
 				handleViolation("sweep", e, 0, src.Tape(), r)
@@ -226,7 +240,7 @@ func cmdWorker(args []string) int {
 			runSeed := choice.Mix(*seed, choice.MixString(p.ID+"/"+name), uint64(*shard), uint64(i))
 			src := choice.New(runSeed)
 			kickWatchdog("explore " + name + " seed " + strconv.FormatUint(runSeed, 10))
-			r := e.Run(src)
+			r := runEntry(p, e, src)
 			so.ExploreRuns++
 			so.Seeds++
 			absorb(name, r)
@@ -286,6 +300,11 @@ func cmdReplay(args []string) int {
 		fmt.Fprintln(os.Stderr, "HARNESS: bad replay file:", err)
 		return 2
 	}
+	if rf.Violation != nil && rf.Violation.Oracle == "data-race" && !raceEnabled {
+		fmt.Fprintln(os.Stderr, "HARNESS: this replay file records a data race; it needs the -race build (use /verif/check C14 --replay)")
+		return 2
+	}
+	ensureRaceLog()
 	p := core.Lookup(rf.Property)
 	if p == nil {
 		fmt.Fprintln(os.Stderr, "HARNESS: unknown property", rf.Property)
@@ -298,7 +317,7 @@ func cmdReplay(args []string) int {
 	}
 	core.ApplyReplayEnv(rf.Env)
 	kickWatchdog("replay")
-	r := e.Run(choice.Replay(rf.Tape))
+	r := runEntry(p, e, choice.Replay(rf.Tape))
 	verbose := len(args) > 1 && args[1] == "-v"
 	if verbose {
 		for _, l := range r.Trace {
@@ -345,7 +364,7 @@ func cmdDigest(args []string) int {
 			runSeed := choice.Mix(*seed, choice.MixString(p.ID+"/"+name), 0, uint64(i))
 			src := choice.New(runSeed)
 			kickWatchdog("digest")
-			r := e.Run(src)
+			r := runEntry(p, e, src)
 			v := ""
 			if r.Violation != nil {
 				v = r.Violation.String()
@@ -419,3 +438,92 @@ func cmdSelftest(args []string) int {
 }
 
 var _ = runtime.NumCPU
+
+// runEntry executes one run and folds in race-detector reports issued during it.
+func runEntry(p *core.Prop, e *core.Entry, src *choice.Src) *core.Result {
+	r := e.Run(src)
+	absorbRace(p.ID, r)
+	return r
+}
+
+type tapeResult struct {
+	Violation *core.Violation `json:"violation"`
+	Used      []uint64        `json:"used"`
+	Faults    map[string]int  `json:"faults"`
+	Trace     []string        `json:"trace"`
+	Sample    interface{}     `json:"sample"`
+}
+
+// cmdRunTape executes one tape in this (fresh) process and prints the outcome as JSON.
+func cmdRunTape(args []string) int {
+	fs := flag.NewFlagSet("runtape", flag.ExitOnError)
+	propID := fs.String("prop", "", "")
+	entry := fs.String("entry", "", "")
+	tapeFile := fs.String("tapefile", "", "")
+	quick := fs.Bool("quick", true, "")
+	fs.Parse(args)
+	ensureRaceLog()
+	p := core.Lookup(*propID)
+	if p == nil {
+		return 2
+	}
+	e := p.FindEntry(*entry)
+	if e == nil {
+		return 2
+	}
+	core.SetTier(*quick)
+	b, err := os.ReadFile(*tapeFile)
+	if err != nil {
+		return 2
+	}
+	var tape []uint64
+	if json.Unmarshal(b, &tape) != nil {
+		return 2
+	}
+	kickWatchdog("runtape")
+	src := choice.Replay(tape)
+	r := runEntry(p, e, src)
+	out, _ := json.Marshal(tapeResult{Violation: r.Violation, Used: src.Tape(), Faults: r.Faults, Trace: r.Trace, Sample: r.Sample})
+	fmt.Println("TAPERESULT " + string(out))
+	return 0
+}
+
+// subprocRun runs a tape in a fresh process (needed for race violations).
+func subprocRun(prop, entry string, tape []uint64) (*core.Result, []uint64) {
+	f, err := os.CreateTemp("", "simrun-tape-")
+	if err != nil {
+		return nil, nil
+	}
+	defer os.Remove(f.Name())
+	b, _ := json.Marshal(tape)
+	f.Write(b)
+	f.Close()
+	self, _ := os.Executable()
+	cmd := exec.Command(self, "runtape", "-prop", prop, "-entry", entry, "-tapefile", f.Name(), fmt.Sprintf("-quick=%v", core.Quick()))
+	env := []string{}
+	for _, kv := range os.Environ() {
+		if !strings.HasPrefix(kv, "SIMRUN_RACELOG=") && !strings.HasPrefix(kv, "GORACE=") {
+			env = append(env, kv)
+		}
+	}
+	cmd.Env = env
+	out, err := cmd.Output()
+	if err != nil {
+		return nil, nil
+	}
+	for _, line := range strings.Split(string(out), "\n") {
+		if strings.HasPrefix(line, "TAPERESULT ") {
+			var tr tapeResult
+			if json.Unmarshal([]byte(line[len("TAPERESULT "):]), &tr) != nil {
+				return nil, nil
+			}
+			r := core.NewResult()
+			r.Violation, r.Trace, r.Sample = tr.Violation, tr.Trace, tr.Sample
+			if tr.Faults != nil {
+				r.Faults = tr.Faults
+			}
+			return r, tr.Used
+		}
+	}
+	return nil, nil
+}
